@@ -25,7 +25,14 @@ func init() {
 		var envIdx int
 		fmt.Sscanf(a[7], "%d", &envIdx)
 		e := getC07Env(c.Seed, envIdx, c08Origins)
-		ik, _ := ecdsa.CreateKey(elliptic.P384(), unhx(a[1]))
+		// only the index key's scalar enters the ID: the key object the caller registers may have been made for any curve
+		// (round 6); which wrapper is used follows from the key bytes, so a replay is exact
+		ikb := unhx(a[1])
+		wrap := []elliptic.Curve{elliptic.P384(), elliptic.P256(), elliptic.P521(), elliptic.P224()}[0]
+		if len(ikb) > 0 {
+			wrap = []elliptic.Curve{elliptic.P384(), elliptic.P256(), elliptic.P521(), elliptic.P224()}[int(ikb[len(ikb)-1])%4]
+		}
+		ik, _ := ecdsa.CreateKey(wrap, ikb)
 		e.issuer.AddOriginWithIndexKey(origin, ik)
 		if len(a) > 9 {
 			// a second origin with its own index key is registered afterwards (a[8] = name, a[9] = index key)
